@@ -389,6 +389,7 @@ func runC13(c *core.Ctx) {
 			c.FuncsSeen[p.QName(ca)] = true
 			// swap under lock: a Store to the map field under the mutex, value = fresh make(map)
 			swap := false
+			swaps := map[ssa.Instruction]bool{}
 			core.AllInstrs(ca, func(x ssa.Instruction) {
 				st, ok := x.(*ssa.Store)
 				if !ok {
@@ -399,8 +400,24 @@ func runC13(c *core.Ctx) {
 				}
 				if _, isMake := core.Unwrap(st.Val).(*ssa.MakeMap); isMake && heldAt(x, hmu) {
 					swap = true
+					swaps[x] = true
 				}
 			})
+			if swap {
+				// on every path to the iteration: a conditional swap leaves the live map being iterated
+				t, _ := core.Search(nil, ca.Blocks[0], func(x ssa.Instruction) core.Action {
+					if swaps[x] {
+						return core.Barrier
+					}
+					if _, ok := x.(*ssa.Range); ok {
+						return core.Target
+					}
+					return core.Continue
+				}, nil)
+				if t != nil {
+					swap = false
+				}
+			}
 			c.Check(swap, "R3", "holder/closeall-swaps-under-lock", p.Pos(ca.Pos()), "replaces the map under the lock before closing", "CloseAll does not swap the channel map under the lock (iterates the live map while add/del mutate it, or deadlocks with delChannel)")
 			// iterates the OLD map (value loaded before the swap) and closes each element without early exit
 			var rng *ssa.Range
